@@ -192,6 +192,8 @@ func ParseContractFile(path, pkgPath string) (*ContractFile, error) {
 			switch rest {
 			case "int":
 				cur.Mode = ModeInt
+			case "real":
+				cur.Mode = ModeReal
 			case "bv":
 				cur.Mode = ModeBV
 			default:
